@@ -3,7 +3,7 @@ from tools.extract import Unit, Rw
 from tools.krun import Harness
 
 PROPERTY = "C05"
-PRELUDE = ["../common/base.rs", "prelude.rs", "lists.rs", "trees.rs"]
+PRELUDE = ["../common/base.rs", "prelude.rs", "lists.rs", "trees.rs", "packs.rs"]
 CK = "crates/core/src/commands/check.rs"
 R_ERR = Rw("", "verr()", count=None, kind="err", why="RusticError construction (kind/message/context dropped)")
 R_MAPERR = Rw("", "", count=None, kind="maperr", why=".map_err(<error building closure>) -> .vmap_err()")
@@ -244,6 +244,67 @@ UNITS += [
 """},
          hints=[("loop_start", "1", "            let ghost pk0 = packs@; proof { assert(tree.nodes@[it.index@] == *node); }"),
                 ("loop_start", "2", "                            proof { assert(content@[it3.index@] == *id); }")],
+         ),
+]
+
+# ---- check_packs as a whole: which packs feed the in-memory index that check_trees / the pack selection use,
+#      and which are compared with the backend listing.  The offset loop is OUTLINED: its text is replaced by a call
+#      of the block unit index_offsets_check (proved above from the same lines), i.e. used through its contract.
+R_DISCARD = Rw(r"(?m)^(\s*)_ = ", r"\1let _ = ", regex=True, count=None, why="`_ = e;` -> `let _ = e;`")
+UNITS += [
+    Unit(name="indexpack_blob_type", file="crates/core/src/repofile/indexfile.rs", anchor="pub fn blob_type(&self) -> BlobType", ret_name="r",
+         wrap_open="impl IndexPack {", wrap_close="}",
+         functions=["repofile::indexfile::IndexPack::blob_type"],
+         contract="\n    ensures r == pack_type_spec(*self),\n"),
+    Unit(name="check_packs", file=CK, anchor="fn check_packs<S: Open>(", ret_name="r",
+         functions=["commands::check::check_packs"],
+         rewrites=[
+             Rw("fn check_packs<S: Open>(", "fn check_packs(", sig=True, why="Repository<S> -> progress stub"),
+             Rw("repo: &Repository<S>,", "repo: &VRepoC,", sig=True, why="Repository<S> -> progress stub"),
+             Rw("be: &impl DecryptReadBackend,", "be: &VListBackend,", sig=True, why="impl DecryptReadBackend -> listing + index-file stream stub"),
+             Rw("hot_be: Option<&impl ReadBackend>,", "hot_be: Option<&VListBackend>,", sig=True, why="impl ReadBackend -> listing stub"),
+             R_DROP_E, R_DROP_W, R_DISCARD,
+             Rw("BTreeMap::new()", "VMap::new()", count=None, why="BTreeMap -> map stub"),
+             Rw("for index in be.stream_all::<IndexFile>(&p)? {", "let vstream = be.vstream_all_index(&p)?; for index in it: vstream.into_iter() {", why="channel stream -> vector of per-file results; Verus for-loop syntax"),
+             Rw(r"index\.(?P<f>packs\w*)\.clone\(\)", r"vclone_packs(&index.\g<f>)", regex=True, count=None, why="Vec<IndexPack>::clone"),
+             Rw("p.blobs.clone()", "vclone_blobs(&p.blobs)", count=None, why="Vec<IndexBlob>::clone"),
+             Rw(r"for \((?P<a>\w+), (?P<b>\w+)\) in index\.all_packs\(\) \{", r"let vap = index.all_packs(); for e in it2: vap.iter() { let \g<a> = vclone_pack(&e.0); let \g<b> = e.1;", regex=True, why="iterator chain -> vector; by-value item -> clone of the element"),
+             Rw(r"let mut expected_offset: u32 = 0;.*?expected_offset \+= blob\.location\.length;\s*\}", "index_offsets_check(vclone_pack(&p), blob_type, collector);", regex=True,
+                why="OUTLINE: the offset loop is the block unit index_offsets_check (same source lines), called through its contract"),
+         ],
+         contract="""
+    requires
+        forall|i: int, j: int| 0 <= i < be.index_files().len() && 0 <= j < all_packs_spec(be.index_files()[i]).len() ==> lengths_fit(#[trigger] all_packs_spec(be.index_files()[i])[j]),
+    ensures
+        // the in-memory index that check_trees and the pack selection use is built from exactly the LIVE packs of the index files
+        // (packs marked for deletion are not part of the index a restore would use)
+        /*@index_for_tree_check_is_exactly_the_live_packs*/ r matches Ok(x) ==> x.0.fed@ == live_packs(be.index_files(), be.index_files().len() as int),
+        // runs that reported NO error: every pack any index file mentions (live or marked) is listed by the backend with its indexed size
+        /*@no_error_implies_every_indexed_pack_listed*/ r is Ok ==> forall|id: PackId| packs_map(be.index_files(), be.index_files().len() as int).dom().contains(id) ==>
+            be.listed(FileType::Pack).contains((Id(id.0), (#[trigger] packs_map(be.index_files(), be.index_files().len() as int)[id]).0)),
+        /*@no_error_implies_marked_packs_have_time*/ r is Ok ==> forall|i: int, j: int| 0 <= i < be.index_files().len() && be.index_files()[i].packs@.len() <= j < all_packs_spec(be.index_files()[i]).len()
+            ==> (#[trigger] all_packs_spec(be.index_files()[i])[j]).time is Some,
+""",
+         loops={1: """
+        invariant
+            forall|i: int, j: int| 0 <= i < be.index_files().len() && 0 <= j < all_packs_spec(be.index_files()[i]).len() ==> lengths_fit(#[trigger] all_packs_spec(be.index_files()[i])[j]),
+            vstream@.len() == be.index_files().len(),
+            forall|i: int| 0 <= i < vstream@.len() ==> ((#[trigger] vstream@[i]) matches Ok(x) ==> x.1 == be.index_files()[i]),
+            index_collector.fed@ == live_packs(be.index_files(), it.index@),
+            packs@ == packs_map(be.index_files(), it.index@),
+            forall|i: int, j: int| 0 <= i < it.index@ && be.index_files()[i].packs@.len() <= j < all_packs_spec(be.index_files()[i]).len()
+                ==> (#[trigger] all_packs_spec(be.index_files()[i])[j]).time is Some,
+""", 2: """
+            invariant
+                forall|i: int, j: int| 0 <= i < be.index_files().len() && 0 <= j < all_packs_spec(be.index_files()[i]).len() ==> lengths_fit(#[trigger] all_packs_spec(be.index_files()[i])[j]),
+                0 <= fi < be.index_files().len(), vap@.len() == all_packs_spec(be.index_files()[fi]).len(),
+                forall|i: int| 0 <= i < vap@.len() ==> (#[trigger] vap@[i]).0 == all_packs_spec(be.index_files()[fi])[i] && vap@[i].1 == (i >= be.index_files()[fi].packs@.len()),
+                index_collector.fed@ == live_packs(be.index_files(), fi + 1),
+                packs@ == packs_map_file(packs_map(be.index_files(), fi), be.index_files()[fi], it2.index@),
+                forall|j: int| be.index_files()[fi].packs@.len() <= j < it2.index@ ==> (#[trigger] all_packs_spec(be.index_files()[fi])[j]).time is Some,
+"""},
+         hints=[("loop_start", "1", "        let ghost fi = it.index@;"),
+                ("loop_start", "2", "            proof { assert(vap@[it2.index@] == *e); }")],
          ),
 ]
 KANI = []
